@@ -25,21 +25,7 @@ _Bool NCNAMECH[65536];
 #define IS_TRAIL(c)      ((c) >= 0xDC00 && (c) <= 0xDFFF)
 #define IS_SURR(c)       ((c) >= 0xD800 && (c) <= 0xDFFF)
 
-/* XMLBuffer::append(XMLCh): same abstract contract as XMLBuffer_append_ch in XMLBuffer_abs.inc, with the explicit requires
-   clause that --replace-call-with-contract needs */
-/*@extract src/xercesc/framework/XMLBuffer.hpp XMLBuffer::append
-inclass
-params const XMLCh toAppend
-as XMLBuffer_append_1
-selfparam XMLBuffer
-declonly
-contract
-__CPROVER_requires(!verif_thrown && BUFLEN <= VERIF_BUFLEN_MAX)
-__CPROVER_assigns(BUFLEN, BUFCH)
-__CPROVER_ensures(BUFLEN == __CPROVER_old(BUFLEN) + 1 && BUFLEN <= VERIF_BUFLEN_MAX)
-__CPROVER_ensures((GA == __CPROVER_old(BUFLEN)) ==> BUFCH == toAppend)
-__CPROVER_ensures((GA < __CPROVER_old(BUFLEN)) ==> BUFCH == __CPROVER_old(BUFCH))
-@*/
+//@ include XMLBuffer_abs1.inc
 
 /*@extract src/xercesc/internal/XMLReader.cpp XMLReader::getNCName
 declonly
